@@ -2,9 +2,9 @@
 # Offline setup: install icontract/deal beside the harness (git-ignored .deps).
 set -e
 cd "$(dirname "$0")"
-if [ ! -d .deps/icontract ]; then
-  PIP_NO_INDEX=1 /venv/bin/pip install --quiet --no-index --find-links /opt/veriftools/wheels --target .deps icontract deal >/dev/null 2>&1 || \
-  PIP_NO_INDEX=1 /venv/bin/pip install --no-index --find-links /opt/veriftools/wheels --target .deps icontract deal
+if [ ! -d .deps/icontract ] || [ ! -d .deps/jsonschema ]; then
+  PIP_NO_INDEX=1 /venv/bin/pip install --quiet --no-index --find-links /opt/veriftools/wheels --target .deps icontract deal jsonschema >/dev/null 2>&1 || \
+  PIP_NO_INDEX=1 /venv/bin/pip install --no-index --find-links /opt/veriftools/wheels --target .deps icontract deal jsonschema
 fi
 mkdir -p evidence replays
 exit 0
